@@ -5,6 +5,8 @@ arguments)."""
 from . import spec_parse
 from .spec_path import normalize_path
 from . import prims
+from yarl._url import USES_RELATIVE
+from yarl._parse import USES_AUTHORITY
 from .prims import CUT, first_of, hash_parts
 
 DEFAULT_PORTS = {"http": 80, "https": 443, "ws": 80, "wss": 443, "ftp": 21}   # C17
@@ -539,3 +541,124 @@ def bool_(u):
 def getstate(u):
     """the pickled state is exactly the five stored parts (nothing derived, nothing normalised)"""
     return ((u.scheme, u.netloc, u.path, u.query, u.fragment),)
+
+
+# ---------------------------------------------------------------- path algebra at the string level (C13, C14)
+
+def _last_slash(p):
+    return prims.last_index(p, "/")
+
+
+def raw_name(u):
+    """C13: the name is the text after the last '/' of the path (empty for an empty path)"""
+    p = u.path
+    if u.netloc != "" or p[:1] == "/":
+        p = p[1:]
+    return p[_last_slash(p) + 1:]
+
+
+def raw_suffix(u):
+    """pathlib's rule: from the last '.', unless it is the first or the last character of the name"""
+    name = raw_name(u)
+    i = prims.last_index(name, ".")
+    if 0 < i and i < len(name) - 1:
+        return name[i:]
+    return ""
+
+
+def parent(u):
+    """C13: the path without its last segment (a top-level name's parent is the root); query and
+    fragment dropped; the URL itself when there is nothing to drop"""
+    p = u.path
+    if p == "" or p == "/":
+        if u.fragment != "" or u.query != "":
+            return U(u.scheme, u.netloc, p, "", "")
+        return u
+    i = _last_slash(p)
+    pp = p[:i] if i > 0 else ""
+    if pp == "" and p[:1] == "/":
+        pp = "/"
+    return U(u.scheme, u.netloc, pp, "", "")
+
+
+def no_slash(u, name, keep_query, keep_fragment):
+    return not ("/" in name)
+
+
+def with_raw_name(u, name, keep_query, keep_fragment):
+    """C13: everything up to and including the last '/' is kept, the rest is replaced; under an
+    authority an empty path becomes '/' + name"""
+    if name == "." or name == "..":
+        raise ValueError(". and .. values are forbidden")
+    p = u.path
+    if u.netloc != "" and p == "":
+        np = "/" + name
+    elif u.netloc != "" or p[:1] == "/":
+        t = p[1:]
+        np = "/" + t[:_last_slash(t) + 1] + name
+    else:
+        np = p[:_last_slash(p) + 1] + name
+    return U(u.scheme, u.netloc, np, u.query if keep_query else "", u.fragment if keep_fragment else "")
+
+
+def with_name(u, name, keep_query, keep_fragment):
+    if not isinstance(name, str):
+        raise TypeError("Invalid name type")
+    if "/" in name:
+        raise ValueError("Slash in name is not allowed")
+    return with_raw_name(u, spec_parse.PATH_QUOTER(name), keep_query, keep_fragment)
+
+
+def with_suffix(u, suffix, keep_query, keep_fragment):
+    """C13: only the suffix is replaced; the rest of the raw name is kept as it is (never re-encoded)"""
+    if not isinstance(suffix, str):
+        raise TypeError("Invalid suffix type")
+    if (suffix != "" and suffix[:1] != ".") or suffix == ".":
+        raise ValueError("Invalid suffix")
+    name = raw_name(u)
+    if name == "":
+        raise ValueError("empty name")
+    if "/" in suffix:
+        raise ValueError("Slash in name is not allowed")
+    q = spec_parse.PATH_QUOTER(suffix)
+    old = raw_suffix(u)
+    return with_raw_name(u, name[:len(name) - len(old)] + q, keep_query, keep_fragment)
+
+
+# ---------------------------------------------------------------- reference resolution (C14)
+
+def _norm(path):
+    """RFC 3986 5.2.4 where it can change anything (a path without '.' has no dot segment)"""
+    if "." in path:
+        return normalize_path(path)
+    return path
+
+
+def join_requires(u, other):
+    """bases of the known finding KF-C14-rootless-base are excluded: the base has an authority or
+    a rooted path (with an authority the path is empty or rooted)"""
+    return (netloc_ok(u) and (u.netloc != "" or u.path[:1] == "/")
+            and (u.netloc == "" or u.path == "" or u.path[:1] == "/"))
+
+
+def join(u, other):
+    """RFC 3986 5.2.2, non-strict (a reference with the base's scheme is treated as relative), on the
+    encoded components; '' stands for an undefined component"""
+    if not isinstance(other, U):
+        raise TypeError("url should be URL")
+    scheme = other.scheme if other.scheme != "" else u.scheme
+    if scheme != u.scheme or not (scheme in USES_RELATIVE):
+        return other
+    if other.netloc != "" and scheme in USES_AUTHORITY:
+        return U(scheme, other.netloc, _norm(other.path), other.query, other.fragment)
+    bp = u.path
+    rp = other.path
+    if rp == "":
+        return U(scheme, u.netloc, bp, other.query if other.query != "" else u.query, other.fragment)
+    if rp[:1] == "/":
+        merged = rp
+    elif bp == "":
+        merged = "/" + rp
+    else:
+        merged = bp[:prims.last_index(bp, "/") + 1] + rp
+    return U(scheme, u.netloc, _norm(merged), other.query, other.fragment)
